@@ -295,9 +295,15 @@ def _pair_patches5(shape):
 
 def _shapes_c05_2(tier):
     out = []
-    for scen in ("tls13", "tls12-ecdhe", "tls12-dhe", "tls10-ecdhe",
-                 "tls12-ecdsa"):
+    scens = ["tls13", "tls12-ecdhe", "tls12-dhe", "tls10-ecdhe",
+             "tls12-ecdsa"]
+    if tier != "quick":
+        scens += ["tls13-aes256", "tls13-chacha", "tls11-ecdhe",
+                  "tls12-ecdhe-cbc", "tls12-rsa"]
+    for scen in scens:
         for liar in ("server", "client"):
+            if scen == "tls12-rsa" and liar == "server":
+                continue    # RSA key transport: the server signs nothing
             for mode in MODES:
                 out.append(dict(scenario=scen, liar=liar, mode=mode))
     return out
@@ -314,6 +320,16 @@ def _settings5(scen):
         return P.settings12((3, 1), "ecdhe_rsa", "aes128", "sha")
     if scen == "tls12-ecdsa":
         return P.settings12((3, 3), "ecdhe_ecdsa", "aes128gcm")
+    if scen == "tls13-aes256":
+        return P.settings13("aes256gcm")
+    if scen == "tls13-chacha":
+        return P.settings13("chacha20-poly1305")
+    if scen == "tls11-ecdhe":
+        return P.settings12((3, 2), "ecdhe_rsa", "aes128", "sha")
+    if scen == "tls12-ecdhe-cbc":
+        return P.settings12((3, 3), "ecdhe_rsa", "aes256", "sha384")
+    if scen == "tls12-rsa":
+        return P.settings12((3, 3), "rsa", "aes128gcm")
     raise ValueError(scen)
 
 
@@ -457,3 +473,109 @@ def c05_3(I, shape):
     I.check(not sc.completed(victim_ep),
             "handshake-does-not-complete-on-a-wrong-finished",
             detail=lambda: dict(error=repr(victim_ep.error)))
+
+
+# ---------------------------------------------------------------------------
+# C05.4  post-handshake authentication on the live pair
+# ---------------------------------------------------------------------------
+from tlslite.errors import TLSLocalAlert as _TLA, BaseTLSException
+
+PHA_MODES = ("honest", "arbitrary", "bitflip", "other-key",
+             "other-transcript", "empty", "short", "long",
+             "finished-arbitrary", "finished-bitflip", "finished-short")
+
+
+def _shapes_c05_4(tier):
+    return [dict(mode=m, suite=s) for m in PHA_MODES
+            for s in ("aes128gcm", "aes256gcm")]
+
+
+def _pump(conn):
+    """let the connection process whatever is in its inbox"""
+    try:
+        for r in conn.readAsync(max=1, min=0):
+            if r in (0, 1) and isinstance(r, int):
+                break
+    except BaseTLSException as e:
+        return e
+    return None
+
+
+@obligation("C05.4", _shapes_c05_4,
+            functions=["tlslite.tlsconnection:TLSConnection."
+                       "request_post_handshake_auth",
+                       "tlslite.tlsrecordlayer:TLSRecordLayer._handle_pha",
+                       "tlslite.tlsrecordlayer:TLSRecordLayer."
+                       "_handle_srv_pha",
+                       "tlslite.tlsrecordlayer:TLSRecordLayer.readAsync",
+                       "tlslite.keyexchange:KeyExchange.calcVerifyBytes"],
+            assumes=P.PAIR_ASSUMES + [
+                "TLS 1.3 certificate handshake without client "
+                "authentication, client configured with an ECDSA "
+                "certificate (offers post_handshake_auth); afterwards the "
+                "server requests post-handshake authentication once; the "
+                "client is honest, or signs with an oracle that lacks the "
+                "key (classes as in C05.2), or lies in its Finished; "
+                "signature unforgeability; fixed randoms"],
+            patches=_pair_patches5, max_paths=400, timeout=(600, 1800),
+            also=("C16",))
+def c05_4(I, shape):
+    """post-handshake authentication records the client's chain exactly when
+    the CertificateVerify is a valid signature by the presented key over
+    handshake context || CertificateRequest || Certificate and the Finished
+    is right; otherwise the server aborts and attributes nothing"""
+    mode = shape["mode"]
+    cset = P.settings13(shape["suite"])
+    sset = P.settings13(shape["suite"])
+    kw = dict(server_cred="rsa", client_cred="ecdsa", req_cert=False,
+              intctxt=True, euf=True)
+    sigmode = mode if not mode.startswith("finished") and mode != "honest" \
+        else None
+    if sigmode:
+        other = P.ModelKey(RSA_KEY, "srv")
+        kw["ckey"] = P.CorruptKey(EC_KEY, "cli", sigmode, I, other)
+    sc = P.Scenario(I, PAIR_RND5, cset, sset, **kw)
+    sc.run()
+    I.check(sc.both_completed(), "handshake-completes",
+            detail=lambda: dict(c=repr(sc.cep.error), s=repr(sc.sep.error),
+                                crash=sc.cep.crash or sc.sep.crash))
+    if not sc.both_completed():
+        return
+    c, s = sc.c, sc.s
+    I.check(s.session.clientCertChain is None,
+            "no-client-identity-before-authentication")
+    I.check(s._pha_supported, "client-offered-post-handshake-auth")
+    try:
+        for r in s.request_post_handshake_auth(sset):
+            pass
+    except Exception as e:
+        I.fail("request_post_handshake_auth raised %s" % type(e).__name__,
+               detail=repr(e)[:200])
+        return
+    if mode.startswith("finished"):
+        P.corrupt_finished(c, I, mode.split("-", 1)[1])
+    try:
+        cerr = _pump(c)
+        serr = _pump(s)
+    except (PathAbort, Unsupported):
+        raise
+    except Exception as e:
+        import traceback
+        I.fail("post-handshake authentication raised %s" % type(e).__name__,
+               detail=traceback.format_exc()[-600:])
+        return
+    P.distinct_keys_assumption()
+    chain = s.session.clientCertChain if s.session else None
+    if mode == "honest":
+        I.check(cerr is None and serr is None,
+                "honest-post-handshake-authentication-completes",
+                detail=lambda: dict(c=repr(cerr), s=repr(serr)))
+        I.check(chain is not None and P.fp(chain) == P.fp(sc.cli_chain),
+                "client-chain-recorded-after-valid-proof")
+        I.check(len(sc.ckey.signed) == 1, "client-signed-once")
+    else:
+        I.check(isinstance(serr, _TLA),
+                "server-aborts-without-a-valid-proof",
+                detail=lambda: dict(s=repr(serr), c=repr(cerr)))
+        I.check(chain is None, "no-client-chain-recorded-without-proof")
+        I.check(s.closed, "connection-closed-after-the-failed-proof")
